@@ -13,3 +13,10 @@ func wu(real ...string) *Prop {
 	return &Prop{World: "wu", QuickRuns: 120000, QuickSecs: 25, ThoroughRuns: 3000000, ThoroughSecs: 420, Batch: 500, RunTimeoutS: 20,
 		Real: real, Stub: []string{"callers are harness goroutines", "clock (synctest)", "goroutine scheduler (detrt)"}}
 }
+
+func init() {
+	regProp("C53wu", wu("mem.Buffer / BufferSlice / Reader reference counting (mem/buffers.go, mem/buffer_slice.go), public tiered pools").doc(
+		"Generated operation sequences (NewBuffer, Copy, Ref, Free, Slice incl. full-range slices of views, SplitUnsafe, ReadUnsafe, Materialize, MaterializeToBuffer, Reader Read/Close, real pool Get/Put) distributed over 1-3 goroutines on a shared handle table, against a reference model of who holds which reference; a tracking pool records and poisons every Put: the memory of a root is returned exactly once, never while a reference is live, and exactly when the last reference is freed; live references always read the original bytes; zeroing pools hand out zeros, Get(n) has len n and cap >= n.",
+		"The unsafe operations (SplitUnsafe, ReadUnsafe) are only applied by a sole owner, as their contract demands.",
+		"reference-model check of the mem API with a tracking, poisoning pool"))
+}
